@@ -894,6 +894,17 @@ def _special_histories(author, rng, have):
             e["args"] = [(a, (cu if v["k"] == "cuwp" else v)) for a, v in e["args"]]
             acts.append(e)
         out.append(("equal unit-property sets carrying different free slot numbers", [{"op": "addtrigs", "trigs": [{"conds": [], "acts": acts, "players": [3]}]}], "multi", True))
+    # a set that carries the LOWEST free slot number (pinned by the author, or taken over from another map) together
+    # with a different, index-less set in the same save: two slots, each holding its own values
+    if len(free_slots) >= 2:
+        acts = []
+        for idx, hp in ((free_slots[0], 41), (None, 42)):
+            cu = Obj(k="cuwp", hp=hp, sp=100, ep=100, res=0, hangar=0, flags=[False] * 5, unk=False, vs=[True] * 5 + [False], vu=[True] * 6 + [False], padding=0, idx=idx)
+            e = author.entry("a", 11)
+            e["args"] = [(a, (cu if v["k"] == "cuwp" else v)) for a, v in e["args"]]
+            acts.append(e)
+        out.append(("a set carrying the lowest free slot number next to a new index-less set", [{"op": "addtrigs", "trigs": [{"conds": [], "acts": acts, "players": [2]}]}], "single", False))
+        out.append(("a new index-less set next to a set carrying the lowest free slot number", [{"op": "addtrigs", "trigs": [{"conds": [], "acts": acts[::-1], "players": [2]}]}], "single", False))
     # one new location and one new unnamed switch shared by triggers added in separate editor calls, with another
     # section replaced in between: still ONE location slot and ONE switch number
     shared_loc = Obj(k="loc", x1=96, y1=128, x2=320, y2=352, name=b"shared area", idx=None, el=[True] * 6)
